@@ -117,37 +117,49 @@ where
 // two signatures below repeat the text of proofs/src/plonk/circuit.rs verbatim.
 use midnight_proofs::plonk::{Constraints, Expression, TableColumn, VirtualCells};
 
-/// `ConstraintSystem::create_gate` evaluates the constraint closure and walks the Expression trees;
-/// the gates themselves are not part of the configure-prefix property.
-pub fn cs_create_gate_stub<F: ff::Field>(
-    _cs: &mut midnight_proofs::plonk::ConstraintSystem<F>,
-    _name: &'static str,
-    constraints: impl FnOnce(&mut VirtualCells<'_, F>) -> Constraints<F>,
-) {
-    core::mem::forget(constraints);
-}
-
-/// `ConstraintSystem::lookup` evaluates the table-map closure and walks the resulting Expressions.
-pub fn cs_lookup_stub<F: ff::Field, S: AsRef<str>>(
-    _cs: &mut midnight_proofs::plonk::ConstraintSystem<F>,
-    _name: S,
-    table_map: impl FnOnce(&mut VirtualCells<'_, F>) -> Vec<(Expression<F>, TableColumn)>,
-) -> usize {
-    core::mem::forget(table_map);
-    0
-}
-pub fn cs_selector_stub<F: ff::Field>(_cs: &mut midnight_proofs::plonk::ConstraintSystem<F>) -> midnight_proofs::plonk::Selector {
-    unsafe { core::mem::zeroed() }
-}
 /// Kani compares generic parameters of stub and original by (index, name) INCLUDING the split
 /// between impl-level and method-level parameters, so stubs of generic methods of
 /// `impl<F: Field> ConstraintSystem<F>` live in an impl block of the same shape.
 pub struct CsStubs<F>(core::marker::PhantomData<F>);
 impl<F: ff::Field> CsStubs<F> {
-    pub fn annot<A, AR>(_cs: &mut midnight_proofs::plonk::ConstraintSystem<F>, _column: TableColumn, _annotation: A)
-    where
-        A: Fn() -> AR,
-        AR: Into<String>,
-    {
+    /// `ConstraintSystem::create_gate` evaluates the constraint closure and walks the Expression
+    /// trees (recursive `evaluate`/`clone`/drop glue, which CBMC cannot constant-fold); the gates
+    /// themselves are not part of the configure-prefix property.
+    pub fn create_gate(
+        _cs: &mut midnight_proofs::plonk::ConstraintSystem<F>,
+        _name: &'static str,
+        constraints: impl FnOnce(&mut VirtualCells<'_, F>) -> Constraints<F>,
+    ) {
+        core::mem::forget(constraints);
     }
+
+    /// `ConstraintSystem::lookup` evaluates the table-map closure and walks the resulting Expressions.
+    pub fn lookup<S: AsRef<str>>(
+        _cs: &mut midnight_proofs::plonk::ConstraintSystem<F>,
+        _name: S,
+        table_map: impl FnOnce(&mut VirtualCells<'_, F>) -> Vec<(Expression<F>, TableColumn)>,
+    ) -> usize {
+        core::mem::forget(table_map);
+        0
+    }
+}
+
+/// Column counts of the optional foreign-field / foreign-curve chips (BigUint arithmetic over the
+/// emulation parameters): evaluated unconditionally by `ZkStdLib::configure` and multiplied by the
+/// chip's enable flag. Any count 0..=255.
+pub fn nb_field_chip_columns_stub<F, K, P>() -> usize
+where
+    F: midnight_circuits::CircuitField,
+    K: midnight_circuits::CircuitField,
+    P: midnight_circuits::field::foreign::params::FieldEmulationParams<F, K>,
+{
+    kani::any::<u8>() as usize
+}
+pub fn nb_foreign_ecc_chip_columns_stub<F, C, B, S>() -> usize
+where
+    F: midnight_circuits::CircuitField,
+    C: midnight_circuits::ecc::curves::WeierstrassCurve,
+    B: midnight_circuits::field::foreign::params::FieldEmulationParams<F, C::Base>,
+{
+    kani::any::<u8>() as usize
 }
